@@ -19,6 +19,10 @@ def check(prog, rep, tier):
                       'a possibly live previous one first')
     rep.rule('R12.d', 'sends follow the tracked connection: transport.write is reachable only through the BGP '
                       'send methods; on every path all writes go to the transport of the protocol the FSM tracks')
+    rep.rule('R12.e', 'a late connectionLost of an earlier, already closed connection does not touch the tracked '
+                      'connection: fsm.protocol / estab_protocol and the state are unchanged')
+    rep.rule('R12.f', 'every path on which the agent abandons a live tracked connection (ends in Idle from a '
+                      'non-Idle state) requests its close')
     rep.assumptions += ['schedule clauses (when the peer answers a pending connect) are not decided']
     facts = common.env_facts(prog)
     tab = common.get_table(prog, dot_dead=facts['dot_dead'])
@@ -114,6 +118,60 @@ def check(prog, rep, tier):
                         path=r.describe())
     if not seen:
         rep.undecided('R12.c', 'TCP_UP2', found='no second-connection rows')
+
+    # ---------------------------------------------------------------- R12.e
+    seen = {}
+    for state in ORDER:
+        for r in tab.get('TCP_CLOSED_OLD', state):
+            if r.kind == 'raise':
+                continue
+            name = 'TCP_CLOSED_OLD@%s' % state
+            tracked = r.field('fsm', 'protocol')
+            estab = r.field('peering', 'estab_protocol')
+            probs = []
+            if not (isinstance(tracked, Obj) and tracked.oid == r.poid):
+                probs.append('fsm.protocol becomes %s' % cval(tracked))
+            if not (isinstance(estab, Obj) and estab.oid == r.poid):
+                probs.append('estab_protocol becomes %s' % cval(estab))
+            if r.final != state:
+                probs.append('state %s -> %s' % (state, r.final))
+            if r.closes() or r.sends():
+                probs.append('closes / sends on the current connection')
+            if probs:
+                if seen.get(name) != 'bad':
+                    seen[name] = 'bad'
+                    rep.bad('R12.e', name, file=common.row_file(r) or FACTORY, line=common.row_line(r),
+                            func='BGPPeering.connection_closed', found='; '.join(probs) +
+                            ': the live connection is then open but no longer tracked (nothing can close it)',
+                            expected='no effect on the tracked connection', key=name, path=r.describe())
+            elif name not in seen:
+                seen[name] = 'ok'
+                rep.ok('R12.e', name, file=FACTORY, line=common.row_line(r))
+    if not seen:
+        rep.undecided('R12.e', 'TCP_CLOSED_OLD', found='no rows')
+    # ---------------------------------------------------------------- R12.f
+    seen = {}
+    for (ev, state), rows in sorted(tab.rows.items()):
+        if state == 'Idle' or ev in ('TCP_DOWN', 'TCP_CLOSED', 'TCP_FAIL', 'TCP_UP2', 'TCP_CLOSED_OLD', 'TCP_UP'):
+            continue
+        if ev == 'T_delay_open' and facts['dot_dead']:
+            continue
+        for r in rows:
+            if r.regime != 'live' or r.final != 'Idle' or r.kind == 'raise':
+                continue
+            name = 'leave:%s@%s' % (ev if ev != 'WIRE' else 'WIRE:' + r.wire['cls'], state)
+            if r.closes():
+                if name not in seen:
+                    seen[name] = 'ok'
+                    rep.ok('R12.f', name, file=common.row_file(r), line=common.row_line(r))
+            elif seen.get(name) != 'bad':
+                seen[name] = 'bad'
+                rep.bad('R12.f', name, file=common.row_file(r), line=common.row_line(r), func=common.row_func(r),
+                        found='the session is given up (-> Idle) but the connection is not closed: it stays open '
+                              'and, after the next connect, unreferenced', expected='closeConnection()', key=name,
+                        path=r.describe())
+    if not seen:
+        rep.undecided('R12.f', 'leave', found='no rows')
 
     # ---------------------------------------------------------------- R12.d
     bgp = prog.cls(BGP_Q)
